@@ -189,6 +189,7 @@ func result(r *h.Run, rtSeed uint64) *h.Result {
 	if w.Spec.Profile {
 		res.PassSeq = w.PassSeq
 		res.SitePass = w.SitePass
+		res.EvPass = w.EvPass
 	}
 	res.SitesHit = len(w.SitePass)
 	res.RtDraws = verifDraws()
